@@ -1046,6 +1046,9 @@ func (w *w12World) pushMany(k, sizeClass, yieldEvery int) {
 			}
 			cn.mu.Unlock()
 		}
+		if w.addressless(*w.eg.pool.primPtr) {
+			r.Probe("drop_while_addressless_sender_is_primary")
+		}
 	}
 	if w.failovers > fo0 {
 		r.Probe("failover_to_other_sender")
@@ -1063,7 +1066,7 @@ func w12Run(r *verifsim.Run) {
 
 	// ---- configuration (value 0 = benign/default everywhere)
 	faultClass := c.Intn(3, "cfg.faults") // 0 none, 1 connection faults, 2 connection + address faults
-	addrSel := c.Intn(3, "cfg.addrs")     // 0 two addresses, 1 three, 2 four
+	addrSel := c.Intn(4, "cfg.addrs")     // 0 two addresses, 1 three, 2 four, 3 one (the secondary sender gets no address)
 	cfg := EgressConfig{
 		Network:            "tcp",
 		ReconnectDelay:     w12Pick(r, "cfg.reconnect_delay", time.Duration(0), 300*time.Millisecond, 1900*time.Millisecond),
@@ -1085,13 +1088,14 @@ func w12Run(r *verifsim.Run) {
 		list = []string{"10.0.0.1:13338", "10.0.0.2:13338"}
 	case 1:
 		list = []string{"10.0.0.1:13338", "10.0.0.2:13338", "10.0.0.3:13338"}
-	default:
+	case 2:
 		list = []string{"10.0.0.1:13338", "10.0.0.2:13338", "10.0.0.3:13338", "10.0.0.4:13338"}
+	default:
+		// ONE resolved address: newAddressPools gives it to the primary sender and leaves the secondary
+		// sender's pool empty (it keeps retrying with errNoAddress and never gets a connection)
+		list = []string{"10.0.0.1:13338"}
 	}
-	if os.Getenv("W12_SINGLE_ADDR") != "" {
-		// Outside the claimed scope (world.json assumptions): with ONE upstream address the secondary
-		// sender has no address at all, and packets that fail over to it are stranded. Knob kept only to
-		// reproduce that observation by hand; never set by ./check.
+	if os.Getenv("W12_SINGLE_ADDR") != "" { // exploration knob: every run with one address
 		list = list[:1]
 	}
 	cfg.Address = strings.Join(list, ",")
@@ -1407,10 +1411,44 @@ func (w *w12World) heal() {
 	w.noteHealth()
 }
 
+// addressless: the sender's address pool is empty (a single resolved address leaves the secondary so).
+func (w *w12World) addressless(s *tcpSender) bool {
+	s.poolMu.Lock()
+	defer s.poolMu.Unlock()
+	return len(s.pool.addrs) == 0
+}
+
+// strandedPackets lists the accepted packets that still sit in the buffer of a sender without any
+// upstream address (white-box): nothing will ever write them anywhere.
+func (w *w12World) strandedPackets() map[int]bool {
+	out := map[int]bool{}
+	for _, s := range []*tcpSender{w.eg.pool.primary, w.eg.pool.secondary} {
+		if !w.addressless(s) {
+			continue
+		}
+		b := s.buf
+		b.mu.Lock()
+		for _, set := range [][][]byte{b.w[:b.wi], b.r[b.ri:b.rm]} {
+			for _, f := range set {
+				if len(f) >= pktHeadLen+w12MinPayload && bytes.Equal(f[pktHeadLen:pktHeadLen+4], w12Magic[:]) {
+					out[int(binary.LittleEndian.Uint32(f[pktHeadLen+4:]))] = true
+				}
+			}
+		}
+		b.mu.Unlock()
+	}
+	return out
+}
+
 func (w *w12World) finalChecks() {
 	r := w.r
 	end := w.now()
 	conns := w.connList()
+	// Recorded finding (known_findings.json: not_forwarded / stranded-on-addressless-secondary): packets
+	// that failed over to a sender without an address are never forwarded. It is reported last, so
+	// that it cannot mask any other clause (delay of the other packets, drop accounting, reports).
+	stranded := w.strandedPackets()
+	nStranded, firstStranded := 0, -1
 
 	// which losses an upstream fault excuses: bytes accepted by a connection that was reset or
 	// stalled and never read, and the frame whose write call failed on such a connection
@@ -1503,6 +1541,9 @@ func (w *w12World) finalChecks() {
 		if !w.healthyAround(p.tAccept, end) {
 			continue
 		}
+		if p.seen == 0 && stranded[idx] {
+			continue // reported below as not_forwarded
+		}
 		r.Extra["delay_checked"]++
 		if p.seen > 0 && p.seenT-p.tAccept <= w.bound {
 			continue
@@ -1537,6 +1578,13 @@ func (w *w12World) finalChecks() {
 		}
 		if excused[idx] {
 			lostExcused++
+			continue
+		}
+		if stranded[idx] {
+			nStranded++
+			if firstStranded < 0 {
+				firstStranded = idx
+			}
 			continue
 		}
 		lost++
@@ -1605,5 +1653,11 @@ func (w *w12World) finalChecks() {
 				w.droppedCount, w.droppedBodies, w.reported, w.reportFrames, reportLost)
 			return
 		}
+	}
+
+	if nStranded > 0 {
+		r.Probe("packets_stranded_on_addressless_sender")
+		w.fail("not_forwarded", "stranded-on-addressless-secondary", "%d accepted packet(s) (first #%d, accepted at t=%v) were never forwarded and never counted as dropped: they failed over into the buffer of the sender that has no upstream address (single resolved address) and sit there for good, although the upstream was healthy for the last %v",
+			nStranded, firstStranded, w.pkts[firstStranded].tAccept, w.settle+w.bound)
 	}
 }
